@@ -17,7 +17,7 @@
 (***************************************************************************)
 EXTENDS Naturals, Sequences, FiniteSets, TLC, Json
 
-CONSTANTS MaxOps, KeySet, Rand, Pairs    \* Pairs: two payloads that spell the SAME field (the second meets a non-default previous value)
+CONSTANTS MaxOps, KeySet, Rand, Overlap, Pairs    \* Overlap: two payloads on DIFFERENT fields whose refreshes overlap in time (either order of application gives the same state); Pairs: two payloads that spell the SAME field (the second meets a non-default previous value)
 
 BoolFields == {"features.hover", "features.completion", "features.formatting", "features.diagnostics",
                "features.semanticTokens", "features.codeActions", "features.foldingRanges", "features.documentLinks",
@@ -124,6 +124,11 @@ SetClasses == {"posint", "decstr", "false", "strfalse", "junk", "true"}
 VARIABLE drawn
 Next == IF Rand THEN /\ drawn' = RandPayload(Len(h))
                      /\ Step(drawn')
+        ELSE IF Overlap THEN
+             /\ drawn' = drawn
+             /\ \E p \in { q \in Payload1 : q.shape = "object" /\ ~q.wrapper /\ q.entries[1].cls \in SetClasses /\ q.entries[1].key # Unknown } :
+                   /\ Len(h) = 1 => FieldOf(p.entries[1].key) # FieldOf(h[1].payload.entries[1].key)
+                   /\ Step(p)
         ELSE IF Pairs THEN
              /\ drawn' = drawn
              /\ \E p \in { q \in Payload1 : q.shape = "object" /\ ~q.wrapper } :
